@@ -1,7 +1,7 @@
-// Run from the worktree root:
+// Copy this directory to <tree>/c19demo/<name>/ and run from the tree root:
 //
 //	export PATH=/opt/veriftools/go1.26.8/bin:$PATH GOTOOLCHAIN=local GOFLAGS=-mod=mod GOPROXY=off GOSUMDB=off
-//	go test ./AUDIT/demo/timing_smem_load_to_vcc/ -count=1 -v
+//	go test ./c19demo/timing_smem_load_to_vcc/ -count=1 -v
 //
 // Property C07: a value written to VCC (as a pair) is read back unchanged; no
 // write disturbs any other register or wavefront; emulation and timing register
